@@ -8,6 +8,7 @@ import (
 	"time"
 
 	chunker "github.com/ipfs/boxo/chunker"
+	"github.com/ipfs/boxo/internal/verifhook"
 	dag "github.com/ipfs/boxo/ipld/merkledag"
 	ft "github.com/ipfs/boxo/ipld/unixfs"
 	mod "github.com/ipfs/boxo/ipld/unixfs/mod"
@@ -64,6 +65,7 @@ func NewFile(name string, node ipld.Node, parent parent, dserv ipld.DAGService, 
 // waiting forever. Use CtxReadFull to give a single read its own context.
 func (fi *File) Open(ctx context.Context, flags Flags) (_ FileDescriptor, _retErr error) {
 	if flags.Write {
+		verifhook.Point("File.Open:desclock.Lock")
 		fi.desclock.Lock()
 		defer func() {
 			if _retErr != nil {
@@ -71,6 +73,7 @@ func (fi *File) Open(ctx context.Context, flags Flags) (_ FileDescriptor, _retEr
 			}
 		}()
 	} else if flags.Read {
+		verifhook.Point("File.Open:desclock.RLock")
 		fi.desclock.RLock()
 		defer func() {
 			if _retErr != nil {
@@ -81,6 +84,7 @@ func (fi *File) Open(ctx context.Context, flags Flags) (_ FileDescriptor, _retEr
 		return nil, errors.New("file opened for neither reading nor writing")
 	}
 
+	verifhook.Point("File.Open:nodeLock.RLock")
 	fi.nodeLock.RLock()
 	node := fi.node
 	fi.nodeLock.RUnlock()
@@ -142,6 +146,7 @@ func (fi *File) Open(ctx context.Context, flags Flags) (_ FileDescriptor, _retEr
 // here, we should at least call that function and wrap the `ErrNotUnixfs` with
 // an MFS text.
 func (fi *File) Size() (int64, error) {
+	verifhook.Point("File.Size:nodeLock.RLock")
 	fi.nodeLock.RLock()
 	defer fi.nodeLock.RUnlock()
 	switch nd := fi.node.(type) {
@@ -162,6 +167,7 @@ func (fi *File) Size() (int64, error) {
 //
 // TODO: Use this method and do not access the `nodeLock` directly anywhere else.
 func (fi *File) GetNode() (ipld.Node, error) {
+	verifhook.Point("File.GetNode:nodeLock.RLock")
 	fi.nodeLock.RLock()
 	defer fi.nodeLock.RUnlock()
 	return fi.node, nil
@@ -190,6 +196,7 @@ func (fi *File) Flush() error {
 func (fi *File) Sync() error {
 	// just being able to take the writelock means the descriptor is synced
 	// TODO: Why?
+	verifhook.Point("File.Sync:desclock.Lock")
 	fi.desclock.Lock()
 	defer fi.desclock.Unlock() // Defer works around "empty critical section (SA2001)"
 	return nil
@@ -301,6 +308,7 @@ func (fi *File) setNodeData(data []byte) error {
 		}
 	}
 
+	verifhook.Point("File.setNodeData:nodeLock.Lock")
 	fi.nodeLock.Lock()
 	fi.node = nd
 	parent := fi.parent
